@@ -173,6 +173,8 @@ pub enum Action {
     Finish { exec: usize, ok: bool },
     Advance { secs: u64 },
     ArmLaunchFail { w: Wid },
+    /// The next execution told to stop on this worker ends only when the harness finishes it.
+    ArmSlowStop { w: Wid },
     /// The worker's own clock is `secs` ahead of what the harness accounts for (a stalled worker
     /// process whose time-limit timer has not fired yet). Never generated; used by witnesses.
     AgeWorker { w: Wid, secs: u64 },
